@@ -328,6 +328,14 @@ func (hs *clientHandshakeState) pickCipherSuite() error {
 		return errors.New("tls: server chose an unconfigured cipher suite")
 	}
 
+	if hs.c.vers < VersionTLS12 && hs.suite.flags&suiteTLS12 != 0 {
+		// The suite was offered for TLS 1.2 (hello.vers); it does not exist in
+		// the earlier version the server selected. The server side has the
+		// same rule in setCipherSuite.
+		hs.c.sendAlert(alertHandshakeFailure)
+		return errors.New("tls: server chose a TLS 1.2-only cipher suite for an earlier protocol version")
+	}
+
 	hs.c.cipherSuite = hs.suite.id
 	return nil
 }
